@@ -840,7 +840,12 @@ rt_prop("C07", ["task", "cancel", "comb"],
         "proved semantically (evict_sound, evict_sound_runTask, poll_parks; invariant K2 in Lemmas/K2*.lean, by induction on the poll "
         "for every fuel, world and nesting): one poll of a task block without hosted commands leaves the polling waker registered at "
         "every request / stream leaf, join-handle queue or self-wake it is suspended at, so a task that run_task discards is "
-        "suspended only at requests whose channel has closed (deadOnlyB). COMPLETENESS, one-request case "
+        "suspended only at requests whose channel has closed (deadOnlyB). evict_sound_reachable / stored_blocks_well_formed: the "
+        "well-formedness hypothesis of evict_sound is discharged over whole runs by the GLOBAL INVARIANT WFw (Lemmas/RFrame, RPoll, "
+        "RExec, RRun: every leaf id and join-handle id mentioned by any stored or queued task of any command exists — through one "
+        "poll of ANY block, also blocks hosting commands, by a single grind call over pollBlock, then executor, knot, command "
+        "building, shell): for ANY command under the direct host after ANY history, a host-free task that run_task discards was "
+        "dead. COMPLETENESS, one-request case "
         "(evict_complete_dropped_request_partial): a task suspended at a one-shot request whose Request was dropped is discarded by "
         "its next poll (fresh waker serial, task not aborted); evict_complete_dropped_request_reachable — the same in every world the "
         "direct host of any command reaches after any history, without the freshness hypothesis, by the GLOBAL INVARIANT "
